@@ -200,6 +200,15 @@ def run_check(check_cls, argv):
                         disagreements = list(disagreements) + chk.zoo_correspondence(chk.scale(120, 2000))
                 boost = 4 if (broken or disagreements) else 1
                 failures = chk.search(boost=boost)
+                # the inputs on which model and implementation differ are where the behaviour changed: the
+                # property's oracle is asked about exactly those inputs too
+                suspects = []
+                for d in disagreements:
+                    t = d.case.get("input") if isinstance(d.case, dict) else None
+                    if isinstance(t, str) and t not in suspects:
+                        suspects.append(t)
+                if suspects and hasattr(chk, "oracle_on_texts"):
+                    failures = list(failures) + list(chk.oracle_on_texts(suspects[:80]))
                 # differences between the model side and the implementation noticed while searching
                 disagreements = list(disagreements) + list(getattr(chk, "late_disagreements", []))
             except Exception:
